@@ -644,7 +644,7 @@ func runC11(s *sim.Sim, variant int) {
 				s.Fault("replica-terminal-error")
 			default:
 				nextErr++
-				outcomes[id] = &simErr{id: fmt.Sprintf("error-%d-from-%s", nextErr, id)}
+				outcomes[id] = &simErr{id: fmt.Sprintf("error-%d-from-%s", nextErr, id), canceled: s.Chance(0.3, "error-is-a-cancellation")}
 				s.Fault("replica-error")
 				if c != nil {
 					cs := sets[c.set]
